@@ -117,15 +117,15 @@ PROPS["C10"] = {
 
 RENDER_MODELLED = CORE_MODELLED + ["modelled, not verified: xml-builder's rendering, the format strings of dot.rs/debug.rs/inspect.rs, itertools::sorted, the derived Ord of Label; the real texts are parsed back into records and compared structurally with the model's documents (exact text equality is recorded only)"]
 PROPS["C18"] = {
-    "quick": [("render", 200, 80)],
-    "thorough": [("render", 12000, 160)],
+    "quick": [("render", 200, 80), ("joinser", 40, 12)],
+    "thorough": [("render", 12000, 160), ("joinser", 1500, 16)],
     "rule": "graphs out of bind-heavy histories (after collections, never-added slots, re-added ids, both Hex representations, empty data, labels of all three variants), exported three times per history, plus a twin graph with the same content built differently (larger capacity, reverse add/bind order, data never read) whose texts must be identical; non-trivial = a history with at least one collection",
     "nontrivial": "collections",
     "modelled": RENDER_MODELLED,
 }
 PROPS["C20"] = {
-    "quick": [("render", 200, 80)],
-    "thorough": [("render", 12000, 160)],
+    "quick": [("render", 200, 80), ("joinser", 40, 12)],
+    "thorough": [("render", 12000, 160), ("joinser", 1500, 16)],
     "rule": "as C18; inspect() and v_print() of every present vertex, Debug and Display of the graph; cycles, diamonds and self-reaching vertices occur by random binding among <= 20 ids (the count of inspect texts with ellipsis marks is reported); a missing answer (abort, stack overflow, time-out) is attributed to the call; non-trivial = a history with at least one collection",
     "nontrivial": "collections",
     "modelled": RENDER_MODELLED,
@@ -149,8 +149,8 @@ PROPS["C12"] = {
     "modelled": ALGO_MODELLED,
 }
 PROPS["C13"] = {
-    "quick": [("slice", 200, 40)],
-    "thorough": [("slice", 25000, 60)],
+    "quick": [("slice", 200, 40), ("joinser", 40, 12)],
+    "thorough": [("slice", 25000, 60), ("joinser", 1500, 16)],
     "rule": "digraphs of 2..14 vertices built through real calls (cycles, shared targets, parallel labels up to N = 16), four slices per graph from random start vertices with random rejection tables (edges rejected on one path and accepted on another included); the sliced graph and the source are observed afterwards; non-trivial = a history with >= 5 judged calls; the number of slices whose kept part contains a back edge is reported",
     "nontrivial": "any5",
     "modelled": ALGO_MODELLED,
